@@ -73,6 +73,12 @@ pub enum Ev {
     MgrUnchoke(usize),
     /// A new connection appears (outgoing: the client connects and speaks first).
     AddPeer(PeerCfg),
+    /// The manager is busy from now on (it awaits something inside a handler): commands of the
+    /// connection tasks queue up unprocessed, the tasks themselves keep running.
+    PauseManager,
+    /// The manager comes back and works off its queue in arrival order, without any task running
+    /// in between.
+    ResumeManager,
 }
 
 pub struct PeerSide {
@@ -100,6 +106,7 @@ pub struct World {
     pub gated: bool,
     /// The manager (event loop) is gone: a panic, or an Err that `event_loop` turns into one.
     pub dead: Option<String>,
+    pub manager_paused: bool,
     pub handler_panics: Vec<String>,
     /// Commands the manager handled during the last step (Debug, shortened).
     pub cmds: Vec<String>,
@@ -165,6 +172,7 @@ impl World {
             t: cfg.torrent.clone(),
             gated: cfg.gated,
             dead: None,
+            manager_paused: false,
             handler_panics: vec![],
             cmds: vec![],
             choice_log: vec![],
@@ -252,6 +260,12 @@ impl World {
         if let Some(Ev::AddPeer(cfg)) = ev {
             self.add_peer(cfg.clone());
         }
+        match ev {
+            Some(Ev::PauseManager) => self.manager_paused = true,
+            Some(Ev::ResumeManager) => self.manager_paused = false,
+            _ => {}
+        }
+        let manager_paused = self.manager_paused;
         self.steps += 1;
         rdest::verif::set_choices(digits.to_vec());
         let World { rt, local, session, peers, harness_rx, cmds, gated, start, broadcasts, mgr_peers, mgr_reply, .. } = self;
@@ -287,6 +301,7 @@ impl World {
                         tokio::time::sleep_until(start + Duration::from_millis(*ms)).await;
                     }
                     Some(Ev::AddPeer(_)) => {}
+                    Some(Ev::PauseManager) | Some(Ev::ResumeManager) => {}
                     Some(mgr_ev) => {
                         use rdest::verif::{Bitfield, PeerCmd};
                         let tx = session.verif_peer_tx();
@@ -323,6 +338,14 @@ impl World {
                 while manager_err.is_none() {
                     tokio::time::sleep(Duration::from_millis(1)).await;
                     let mut progressed = false;
+                    if manager_paused {
+                        // tasks ran during the sleep above; their commands stay queued
+                        rounds += 1;
+                        if rounds >= 3 {
+                            break;
+                        }
+                        continue;
+                    }
                     while let Some(cmd) = session.verif_try_recv_peer_cmd() {
                         progressed = true;
                         cmds.push(short_cmd(&cmd));
